@@ -622,13 +622,18 @@ pub fn relatives_case(code: &str, v: &Vocab, r: &mut Rng, name: String) -> Case 
 /// one record whose title shares more than 256 distinct grams with the query that types it verbatim (counters,
 /// candidate selection and match vectors far beyond their everyday sizes), next to two ordinary records
 pub fn long_title_case(code: &str, v: &Vocab, r: &mut Rng, name: String) -> Case {
-    let nwords = r.range(17, 22);
-    let title: String = (0..nwords).map(|_| { let l = r.range(14, 18); (0..l).map(|_| *r.pick(&v.letters)).collect::<String>() }).collect::<Vec<_>>().join(" ");
+    // either few long words or many (34–45) short ones
+    let many = r.chance(1, 2);
+    let nwords = if many { r.range(34, 45) } else { r.range(17, 22) };
+    let title: String = (0..nwords).map(|_| { let l = if many { r.range(6, 9) } else { r.range(14, 18) }; (0..l).map(|_| *r.pick(&v.letters)).collect::<String>() }).collect::<Vec<_>>().join(" ");
     let mut ops = vec![Op::New, Op::Limit(10), Op::Add(1, 5, v.title(r)), Op::Add(2, 9, title.clone()), Op::Add(3, 7, v.title(r))];
     ops.push(Op::Search(title.clone()));
     ops.push(Op::Prepare(title.clone(), 10));
     let half: String = title.chars().take(title.chars().count() / 2).collect();
     ops.push(Op::Search(half));
+    // single words of the long title, early and late ones
+    let words: Vec<&str> = title.split(' ').collect();
+    for k in [0usize, 31, 32, words.len() - 1] { if k < words.len() { ops.push(Op::Search(words[k].to_string())); } }
     ops.push(Op::Search(String::new()));
     Case { name, lang: code.to_string(), stream: "F-store-long-title", ops }
 }
@@ -691,7 +696,7 @@ pub fn reg_cases(r: &mut Rng, n: usize) -> Vec<Case> {
                     live.push((id, li)); ops.push(Op::RCreate(id, LANGS[li].to_string()));
                 }
                 2 if can_use && r.chance(1, 3) => { let k = r.below(live.len()); let (id, _) = live.remove(k); titles.retain(|e| e.0 != id); ops.push(Op::RDestroy(id)); }
-                3 if can_use => { let (id, _) = *r.pick(&live); ops.push(Op::RLimit(id, *r.pick(&[0usize, 1, 2, 3, 10, 11, 25, 100]))); }
+                3 if can_use => { let (id, _) = *r.pick(&live); ops.push(Op::RLimit(id, *r.pick(&[0usize, 1, 2, 3, 10, 11, 25, 100, 95, 60, 55, 40, 1000, 999, 12, 100, 95]))); }
                 4 if can_use => { let (id, _) = *r.pick(&live); let (a, b) = r.pick(&[("[", "]"), ("{{", "}}"), ("", ""), ("<", ">")]).clone(); ops.push(Op::RMarkers(id, a.to_string(), b.to_string())); }
                 5 | 6 | 7 if can_use => {
                     let (id, li) = *r.pick(&live);
